@@ -15,6 +15,23 @@ fn main() {
         eprintln!("usage: cbv <Cxx> [--tier quick|thorough] [--replay file] [--opt k=v]...");
         std::process::exit(2);
     }
+    if args[0] == "litmus-dump" {
+        print!("{}", seqmc::litmus::dump());
+        return;
+    }
+    if args[0] == "litmus-compare" {
+        // stdin: output of litmus-loom; stdout: JSON report; exit 2 if loom allows more than the simulator
+        let mut s = String::new();
+        use std::io::Read;
+        std::io::stdin().read_to_string(&mut s).unwrap();
+        match seqmc::litmus::compare_with_loom(&s) {
+            Ok(v) => {
+                println!("{}", serde_json::to_string_pretty(&v).unwrap());
+                return;
+            }
+            Err(e) => machinery_failure(&e),
+        }
+    }
     let prop = args[0].clone();
     let mut tier = match std::env::var("VERIF_TIER").as_deref() {
         Ok("thorough") => Tier::Thorough,
